@@ -353,19 +353,54 @@ Proof.
     rewrite ?tg_dl_ids_app, L1, D1; simpl; rewrite app_nil_r; reflexivity.
 Qed.
 
+Lemma tg_find_id_id : forall id q m, tg_find_id id q = Some m -> tm_id m = id.
+Proof.
+  induction q as [|x q IH]; intros m H; simpl in H; [discriminate|].
+  destruct (tm_id x =? id) eqn:E; [inversion H; subst; apply Z.eqb_eq; exact E | auto].
+Qed.
+
+(* a CoAP retransmission either goes straight to the record layer or, if the gate is closed,
+   back to the tail of the delay queue *)
+Lemma tg_retransmit_fifo : forall seen s id s' o,
+  tg_pre seen s -> tg_retransmit O s id false = (s', o) -> tg_nonack o = true ->
+  tg_ids (ts_delayq s') = tg_ids (ts_delayq s) ++ tg_dl_ids o.
+Proof.
+  intros seen s id s' o P H N. unfold tg_retransmit in H.
+  destruct (tg_find_id id (ts_sendq s)) as [m|] eqn:FI.
+  2:{ inversion H; subst. simpl. rewrite app_nil_r. reflexivity. }
+  apply tg_find_id_id in FI.
+  set (s1 := if 0 <? ts_con_active s then tg_set_con_active s (ts_con_active s - 1) else s) in H.
+  assert (D1 : ts_delayq s1 = ts_delayq s) by (unfold s1; destruct (0 <? ts_con_active s); reflexivity).
+  assert (S1 : tg_same s s1) by (unfold s1; destruct (0 <? ts_con_active s); unfold tg_same; simpl; auto).
+  assert (P1 : tg_pre seen s1) by (eapply tg_pre_same; eauto).
+  destruct (negb (tg_state_eqb (ts_state s1) TgEstablished)
+            || tm_con m && (ts_nstart s1 <=? ts_con_active s1)).
+  { inversion H; subst. simpl. rewrite D1. unfold tg_ids. rewrite map_app. reflexivity. }
+  rewrite tg_session_send_dtls in H by apply P1.
+  destruct (tg_dtls_send O s1 m) as [[s2 o2] bw] eqn:DS.
+  assert (N2 : tg_nonack o2 = true).
+  { destruct ((0 <=? bw) && tm_con m); [inversion H; subst; auto|].
+    destruct (_ && _); inversion H; subst; auto. }
+  destruct (tg_dtls_send_fifo _ _ _ _ _ _ P1 DS N2) as [D2 [L2 _]].
+  destruct ((0 <=? bw) && tm_con m); [|destruct (_ && _)]; inversion H; subst; simpl;
+    rewrite L2, D2, D1, app_nil_r; reflexivity.
+Qed.
+
 (* ------------------------------------------------------------------ runs *)
 Definition tg_fifo_ev (e : tg_ev) : Prop :=
   match e with
-  | EConnect | ESend _ true | ERecv _ _ | ETimeout => True
+  | EConnect | ESend _ true | ERecv _ _ | ETimeout | ERetransmit _ false => True
   | _ => False
   end.
 
 (* ids handed to the record layer out of the delay queue: the OTlsTx of every step that is not
-   itself a coap_send; ids accepted into the queue *)
+   itself a coap_send or a retransmission (those transmit directly); ids accepted into the queue
+   (by coap_send, or again by a retransmission that found the gate closed) *)
 Fixpoint tg_flushed (tr : list (tg_ev * list tg_out)) : list Z :=
   match tr with
   | [] => []
   | (ESend _ _, _) :: r => tg_flushed r
+  | (ERetransmit _ _, _) :: r => tg_flushed r
   | (_, o) :: r => tg_tx_ids o ++ tg_flushed r
   end.
 Definition tg_delayed (tr : list (tg_ev * list tg_out)) : list Z := tg_dl_ids (tg_outs tr).
@@ -427,6 +462,9 @@ Proof.
       simpl. rewrite B1. simpl. rewrite A1, <- !app_assoc, L2. reflexivity.
     + pose proof (tg_timeout_fifo _ _ _ S0 N1) as [A1 B1].
       simpl. rewrite B1. simpl. rewrite A1, <- !app_assoc, L2. reflexivity.
+    + destruct giveup; [contradiction|].
+      pose proof (tg_retransmit_fifo _ _ _ _ _ P S0 N1) as A1.
+      simpl. rewrite app_assoc, <- A1. exact L2.
 Qed.
 
 (* ------------------------------------------------------------------ theorem, part 3 *)
@@ -447,3 +485,92 @@ Proof.
 Qed.
 
 End Fifo.
+
+(* ------------------------------------------------------------------ progress
+   If the record layer accepts every message (gnutls_record_send > 0), coap_session_connected -
+   the call made when the handshake completes and whenever an acknowledgement frees an NSTART
+   slot - leaves nothing in the delay queue unless NSTART holds it back: the queue is empty, or
+   its head is a Confirmable and con_active has reached NSTART. *)
+Section Progress.
+Variable O : tg_oracle.
+Hypothesis tx_ok : forall k, 0 < or_tx O k.
+
+Definition tg_head_blocked (s : tg_sess) : Prop :=
+  match ts_delayq s with
+  | [] => True
+  | m :: _ => tm_con m = true /\ ts_nstart s <= ts_con_active s
+  end.
+
+Lemma tg_dtls_send_ok : forall s m,
+  ts_tls s && ts_tls_est s = true ->
+  exists s' c, tg_dtls_send O s m = (s', [OTlsTx (tm_id m) c], c) /\ 0 < c /\
+    ts_state s' = ts_state s /\ ts_delayq s' = ts_delayq s /\
+    ts_con_active s' = ts_con_active s /\ ts_nstart s' = ts_nstart s.
+Proof.
+  intros s m TE. unfold tg_dtls_send. rewrite TE. simpl.
+  pose proof (tx_ok (ts_ktx s)) as K. apply Z.ltb_lt in K. rewrite K.
+  eexists. eexists. split; [reflexivity|]. apply Z.ltb_lt in K. simpl. auto.
+Qed.
+
+Lemma tg_flush_prog : forall q seen s s' o,
+  tg_pre seen s -> ts_delayq s = q -> tg_flush O q s = (s', o) ->
+  ts_state s' = ts_state s /\ (ts_state s' = TgEstablished -> tg_head_blocked s').
+Proof.
+  induction q as [|m q IH]; intros seen s s' o P Q H; simpl in H.
+  - inversion H; subst. split; auto. intros _. unfold tg_head_blocked. rewrite Q. exact I.
+  - destruct (negb (tg_state_eqb (ts_state s) TgEstablished)) eqn:E.
+    { inversion H; subst. split; auto. intros X. apply negb_true_iff in E.
+      rewrite X in E. discriminate. }
+    destruct (tm_con m && (ts_nstart s <=? ts_con_active s)) eqn:B.
+    { inversion H; subst. split; auto. intros _. unfold tg_head_blocked. rewrite Q.
+      apply andb_true_iff in B. destruct B as [B1 B2]. split; auto. apply Z.leb_le. exact B2. }
+    apply negb_false_iff in E. apply tg_state_eqb_eq in E.
+    set (s2 := tg_set_delayq (if tm_con m then tg_set_con_active s (ts_con_active s + 1) else s) q) in H.
+    assert (S2 : tg_same s s2) by (unfold s2; destruct (tm_con m); unfold tg_same; simpl; auto).
+    assert (P2 : tg_pre seen s2) by (eapply tg_pre_same; eauto).
+    assert (TE : ts_tls s2 && ts_tls_est s2 = true).
+    { destruct P2 as [_ [[I0 [I1 _]] _]]. destruct S2 as [_ [_ [_ [E4 _]]]].
+      rewrite E4 in I1. specialize (I1 E). rewrite I1, (I0 I1). reflexivity. }
+    rewrite tg_session_send_dtls in H by apply P2.
+    destruct (tg_dtls_send_ok s2 m TE) as [s3 [c [DS [C0 [K1 [K2 [K3 K4]]]]]]].
+    rewrite DS in H.
+    destruct (tg_dtls_send_post O _ _ _ _ _ _ P2 DS) as [Q3 _].
+    set (s4 := if tm_con m then tg_set_sendq s3 (ts_sendq s3 ++ [m]) else s3) in H.
+    assert (S4 : tg_same s3 s4) by (unfold s4; destruct (tm_con m); unfold tg_same; simpl; auto).
+    assert (BW : (c <? 0) = false) by (apply Z.ltb_ge; lia). rewrite BW in H.
+    destruct (tg_flush O q s4) as [s5 o5] eqn:FL. inversion H; subst.
+    assert (P4 : tg_pre (snd (tg_scan seen [OTlsTx (tm_id m) c])) s4)
+      by (eapply tg_pre_same; [exact S4 | apply Q3]).
+    assert (Q4 : ts_delayq s4 = q) by (unfold s4; destruct (tm_con m); simpl; rewrite K2; reflexivity).
+    destruct (IH _ _ _ _ P4 Q4 FL) as [A1 A2]. split; [|exact A2].
+    rewrite A1. unfold s4. destruct (tm_con m); simpl; rewrite K1; unfold s2;
+      destruct (tm_con m); reflexivity.
+Qed.
+
+Theorem tg_connected_progress : forall seen s s' o,
+  tg_pre seen s -> ts_tls_est s = true -> ts_type s <> TgHello ->
+  tg_connected O s = (s', o) ->
+  ts_state s' = TgEstablished /\ tg_head_blocked s'.
+Proof.
+  intros seen s s' o P E NH H. pose proof P as [Hp [[I0 [I1 I2]] G]].
+  unfold tg_connected in H.
+  destruct (tg_flush O (ts_delayq (tg_set_state s TgEstablished)) (tg_set_state s TgEstablished))
+    as [s2 o2] eqn:FL.
+  inversion H; subst; clear H.
+  assert (P1 : tg_pre seen (tg_set_state s TgEstablished)) by (apply tg_pre_intro; simpl; auto).
+  destruct (tg_flush_prog _ _ _ _ _ P1 eq_refl FL) as [A1 A2]. simpl in A1.
+  split; auto.
+Qed.
+
+(* the same without the internal invariant in the statement *)
+Theorem tg_connected_progress' : forall s s' o,
+  ts_proto s = TgDtls -> ts_tls s = true -> ts_tls_est s = true -> ts_type s <> TgHello ->
+  tg_connected O s = (s', o) ->
+  ts_state s' = TgEstablished /\ tg_head_blocked s'.
+Proof.
+  intros s s' o Hp T E NH H.
+  eapply (tg_connected_progress true); eauto.
+  apply tg_pre_intro; auto.
+Qed.
+
+End Progress.
